@@ -11,6 +11,7 @@ import Driver.HSplitters
 import Driver.HPipe
 import Driver.HReader
 import Driver.HAgc3
+import Driver.HFasta
 /-!
 `ragc_model`: executes the Lean models behind a one-line-in / one-line-out protocol.
 Every handler returns `none` for a request it does not understand; the reply is then `bad-op`.
@@ -18,7 +19,7 @@ Every handler returns `none` for a request it does not understand; the reply is 
 namespace Driver
 
 def handlers : List (List String → Option String) :=
-  [handleKmer, handleTuple, handleSegment, handleQueue, handleContainer, handleRange, handleColl, handleLz, handleSplitters, handlePipe, handleReader, handleAgc3]
+  [handleKmer, handleTuple, handleSegment, handleQueue, handleContainer, handleRange, handleColl, handleLz, handleSplitters, handlePipe, handleReader, handleAgc3, handleFasta]
 
 def dispatch (line : String) : String :=
   let fields := line.trimAscii.toString.splitOn " "
